@@ -197,7 +197,7 @@ func auxTree(w *world.World, t *mast.Mast) *mast.Mast {
 }
 
 type c12Stats struct {
-	evals, faultsHit, errorsReturned, panics, swallowed int64
+	evals, faultsHit, errorsReturned, panics, swallowed, swallowedDiffer int64
 }
 
 func layerClass(cfg *world.Config, k int) string {
@@ -298,6 +298,11 @@ func c12State(run *report.Run, cfg *world.Config, hist []world.Op, acc *pairAcc,
 			}
 			if res.Err == nil {
 				atomic.AddInt64(&st.swallowed, 1)
+				// diagnostic only (the property speaks of calls that return an error): did the
+				// swallowed fault change what the operation did?
+				if c1, s1, h1 := treeView(w, t); !c1.Equal(postC) || s1 != postSize || h1 != postH {
+					atomic.AddInt64(&st.swallowedDiffer, 1)
+				}
 				continue
 			}
 			atomic.AddInt64(&st.errorsReturned, 1)
@@ -398,6 +403,7 @@ func C12(run *report.Run) {
 	run.Extra["errors_returned_under_fault"] = st.errorsReturned
 	run.Extra["faults_swallowed_or_not_reached"] = st.swallowed
 	run.Extra["panics_under_fault_not_judged"] = st.panics
+	run.Extra["swallowed_faults_that_changed_the_outcome_not_judged"] = st.swallowedDiffer
 	run.AddSample(map[string]interface{}{"pre_state": "every state of the single-tree closure (all mixes of persisted / loaded / dirty nodes)", "operation": "Insert/Delete of every key and value, Get, Iter, SeekIter, DiffIter, DiffLinks, Clone, Cursor Min/Max/Ceil/Forward^k/Backward^k",
 		"deviation": "the i-th Persist.Load (or KeyCompare, or Marshal) call of that operation returns an error, for every i (pairs i<j in the thorough tier)", "oracle": "if the call returned an error: contents/Size/Height unchanged and the retried call behaves like the fault-free execution"})
 	run.Rule = "engine F: pre-states from engine W's closure; per (state, operation) a 0-deviation reference execution counts environment calls, then one execution per call index with that answer replaced by an error; distinct_nontrivial = executions in which the operation actually returned an error"
